@@ -22,6 +22,9 @@ inductive Op
   | readDone           -- the pending read gets the bytes that arrived
   | excess             -- the raw read that carried the finish request carried further (foreign, plaintext) bytes too
   | foreign            -- bytes that are not ciphertext under σ arrive (an on-path adversary inserts a plaintext request)
+  | writeBegin         -- the answer's Write has started: the plaintext framing is told a response is on its way, the bytes are
+                       --   handed to the socket (which may take a while)
+  | writeEnd           -- … the socket write has returned: a negotiated cryptographer is activated, kept-back events are written
   | event              -- another goroutine (the application changing a value, a keep-alive) writes an EVENT to this connection
 deriving DecidableEq, Repr
 
@@ -41,9 +44,10 @@ structure St where
   queued : Nat                   -- events kept back until the response is written
   evOut : Nat                    -- events written to the connection
   evDuring : Bool                -- an event was written between the request and its response
+  writing : Bool                 -- the answer's socket write is in progress
 deriving DecidableEq, Repr
 
-def init : St := ⟨false, false, none, none, .empty, none, true, false, false, 0, 0, false⟩
+def init : St := ⟨false, false, none, none, .empty, none, true, false, false, 0, 0, false, false⟩
 
 /-- `fixed = true`: the code after the F18 repair. `fixed = false`: Decrypter() promoted the pending cryptographer as
     a side effect (so whichever Read ran first after SetCryptographer switched the encrypter too), and a read that was
@@ -58,11 +62,11 @@ def step (fixed strict queue : Bool) (s : St) (o : Op) : St :=
   | .event =>
     if queue then
       -- Connection.WriteEvent: kept back while a request is served (http.ConnState active … idle)
-      if s.awaiting then { s with queued := s.queued + 1 } else { s with evOut := s.evOut + 1 }
+      if s.awaiting || s.writing then { s with queued := s.queued + 1 } else { s with evOut := s.evOut + 1 }
     else
       -- before the F31 repair an event is an ordinary Write: it goes out at once, and — like every write — it activates a
       -- pending cryptographer (session.didWrite)
-      let s1 := { s with evOut := s.evOut + 1, evDuring := s.evDuring || s.awaiting }
+      let s1 := { s with evOut := s.evOut + 1, evDuring := s.evDuring || s.awaiting || s.writing }
       if fixed then { s1 with cur := s1.cur || s1.next, next := false } else s1
   | .readStart =>
     if s.pending.isSome then s else
@@ -74,6 +78,13 @@ def step (fixed strict queue : Bool) (s : St) (o : Op) : St :=
   | .writeResp =>
     if s.respEncrypted.isSome then s else
     let s1 := { s with respEncrypted := some s.cur, awaiting := false, evOut := s.evOut + s.queued, queued := 0 }
+    if fixed then { s1 with cur := s1.cur || s1.next, next := false } else s1
+  | .writeBegin =>
+    if s.respEncrypted.isSome then s else
+    { s with respEncrypted := some s.cur, awaiting := false, writing := true }
+  | .writeEnd =>
+    if !s.writing then s else
+    let s1 := { s with writing := false, evOut := s.evOut + s.queued, queued := 0 }
     if fixed then { s1 with cur := s1.cur || s1.next, next := false } else s1
   | .peerSends => if s.respEncrypted.isSome && s.wire == .empty then { s with wire := .cipher } else s
   | .foreign => if s.wire == .empty then { s with wire := .foreign } else s
